@@ -136,6 +136,7 @@ def wild_atoms() -> List[tuple]:
         ("tuplekey", lambda: {(1, 2): 1}),
         ("byteskey", lambda: {b"k": 1}),
         ("mixedkeys", lambda: {"a": "b", 1: 2}),
+        ("hugekey", lambda: {10 ** 5000: 1}),
         ("mixedkeys_bad", lambda: {"a": [], 1: {}}),
         ("deeplist", lambda: deep_list(60)),
         ("listlist", lambda: [[]]),
@@ -259,7 +260,7 @@ def check_one(case, method, d, st, optkey, wkind, depth, sig_extra=None):
 
 def run_type(i, label, spec, tier, st):
     env_ctx = Ctx(env=dc.build_env(spec))
-    if well_formed(spec, env_ctx) and not label.startswith(("std", "anyset:")):
+    if well_formed(spec, env_ctx) and not label.startswith(("std", "anyset:", "con:")):
         return
     lvl = dc.level_of(label)
     case = dc.Case(label, spec)
@@ -350,6 +351,14 @@ def extra_types():
         ]
         if k not in ("decimal", "deque_int"):
             out.append((f"std_key[{k}]", MapT("mapping", t, INT)))
+    from ..tast import FLOAT, Con
+
+    out += [
+        ("con:int_multof_float", Con(INT, (("mult_of", 0.5),))),
+        ("con:float_multof_float", Con(FLOAT, (("mult_of", 0.5),))),
+        ("con:int_bounds_float", Con(INT, (("min", 0.5), ("max", 10.5)))),
+        ("con:list_int_multof_float", Coll("list", Con(INT, (("mult_of", 0.25),)))),
+    ]
     any_t = AnyT()
     out += [
         ("anyset:set", Coll("set", any_t)),
